@@ -22,6 +22,7 @@ import os
 import re
 import subprocess
 
+import common
 from common import CACHE, REPO, VERIF, run
 import decl_engine as D
 
@@ -53,6 +54,7 @@ def expansion_items(config):
     out_json = os.path.join(d, '%s-%s.json' % (tag, digest))
     if os.path.exists(out_json):
         return json.load(open(out_json))
+    common.claim_target_dir(os.path.join(CACHE, 'expand-target'))
     cmd = ['cargo', '+nightly', 'rustc', '--offline', '--lib', '--manifest-path', os.path.join(REPO, 'Cargo.toml'),
            '--target-dir', os.path.join(CACHE, 'expand-target')]
     if feats:
